@@ -17,7 +17,7 @@ LEMMAS = {}
 class Contract:
     def __init__(self, qualname, params=None, requires=None, ensures=None, raises=None, raises_any=False, modifies=(),
                  returns=None, invariants=None, receivers=None, serves=(), inline=False, assumed=False, note="",
-                 variants=None, fresh_result=False, total=False, frame_only=False, fresh_params=(), inline_at_calls=False):
+                 variants=None, fresh_result=False, total=False, frame_only=False, fresh_params=(), inline_at_calls=False, init_fields=None, param_names=None, result_aliases=None, witnesses=None):
         self.qualname = qualname
         self.params = params or {}
         self.requires, self.ensures = requires, ensures
@@ -35,6 +35,11 @@ class Contract:
         self.fresh_result = fresh_result
         self.total = total
         self.inline_at_calls = inline_at_calls
+        self.init_fields = init_fields or {}     # __init__ contracts: attributes the call creates on `self`
+        self.result_aliases = result_aliases or {}   # result field -> parameter whose object it is (identity)
+        self.witnesses = witnesses               # () -> [native argument dicts] tried on the real code when a counter-model
+                                                 # over uninterpreted parts (opaque children) cannot be rebuilt as objects
+        self.param_names = param_names           # interface contracts: [(name, default)] of the abstract method
         self.frame_only = frame_only          # only frame obligations (loops get the trivial invariant, no ensures)
         self.fresh_params = tuple(fresh_params)  # parameters that are fresh objects (self of __init__)
 
@@ -182,3 +187,14 @@ class ObjVal(Shape):
         fields = V.fresh(name + "_fields", V.VS)
         ip.path.assume(z3.Length(fields) == n)
         return Z(V.VObj(z3.IntVal(ip.program.class_id(self.cls)), fields), self.cls)
+
+
+INTERFACES = {}
+
+
+def interface(method_name, **kw):
+    """A contract that every implementation of `method_name` in the program satisfies (each implementation's own
+    contract is proved separately and implies it); used when the receiver's class is unknown."""
+    c = Contract(f"interface:{method_name}", **kw)
+    INTERFACES[method_name] = c
+    return c
